@@ -24,7 +24,9 @@ EXTENDS RouteRef, TLC
 
 CONSTANTS MaxSeg,      \* request = at most MaxSeg segments
           MaxDepth,    \* nesting depth explored by the dispatch machine
-          Mut          \* "none" | "search" | "reverse" | "icase" | "wrongparam"  (seeded faults, self-test)
+          Mut          \* "none" | "search" | "reverse" | "icase" | "wrongparam" | "dollar"  (seeded faults, self-test)
+                       \*   "dollar": the internal end anchor is "$" (also matches before a final newline) instead of "\z";
+                       \*   only the capture-less regex_match overload is affected (the other one re-checks the span)
 
 VARIABLES mode, meth, path, depth, opts, idx, out, hit, taken
 vars == <<mode, meth, path, depth, opts, idx, out, hit, taken>>
@@ -45,12 +47,14 @@ Segs == {sa, sab, s1, sm, ss}
 
 RECURSIVE Strs(_)
 Strs(n) == IF n = 0 THEN {<<>>} ELSE LET P == Strs(n - 1) IN P \cup { x \o g : x \in P, g \in Segs }
-Requests == Strs(MaxSeg)
+\* plus near-misses "word + newline" (a prefix-only match that a "$"-style end anchor would accept)
+Requests == Strs(MaxSeg) \cup { x \o <<10>> : x \in Strs(MaxSeg - 1) }
 
-Methods == {"GET", "POST", "get"}
+GETb == <<71, 69, 84>>   POSTb == <<80, 79, 83, 84>>   getb == <<103, 101, 116>>   GETnl == <<71, 69, 84, 10>>
+Methods == {GETb, POSTb, getb, GETnl}
 NoMeth == [k |-> "none"]
-MGet   == [k |-> "set", s |-> {"GET"}]
-MAlt   == [k |-> "set", s |-> {"GET", "POST"}]
+MGet   == [k |-> "set", s |-> {GETb}, re |-> FALSE]                              \* "GET": compared as a string
+MAlt   == [k |-> "set", s |-> {GETb, POSTb}, re |-> TRUE, alts |-> <<GETb, POSTb>>]  \* "<GET or POST>": a regex, capture-less match
 
 HPats == << <<L(sa)>>,                       \* /a
             <<L(ss), D>>,                    \* /<digits>
@@ -86,39 +90,46 @@ LevelLists(d) ==
 SetMax(X) == CHOOSE x \in X : \A y \in X : y <= x
 Fail == [ok |-> FALSE, g |-> <<>>]
 
-RECURSIVE BT(_, _, _, _)
-BT(p, i, s, j) ==
-    IF i > Len(p) THEN [ok |-> (j = Len(s) + 1) \/ Mut = "search", g |-> <<>>]        \* "\z" + span check
+\* cap = TRUE: regex_match with captures (end anchor AND span check); FALSE: the capture-less overload (end anchor only)
+EndOK(s, j, cap) == \/ j = Len(s) + 1
+                    \/ Mut = "search"
+                    \/ (Mut = "dollar" /\ ~cap /\ j = Len(s) /\ s[j] = 10)
+
+RECURSIVE BT(_, _, _, _, _)
+BT(p, i, s, j, cap) ==
+    IF i > Len(p) THEN [ok |-> EndOK(s, j, cap), g |-> <<>>]
     ELSE LET e == p[i]
              n == Len(s)
-         IN CASE e.k = "lit" -> IF OccAt(s, e.s, j) THEN BT(p, i + 1, s, j + Len(e.s)) ELSE Fail
+         IN CASE e.k = "lit" -> IF OccAt(s, e.s, j) THEN BT(p, i + 1, s, j + Len(e.s), cap) ELSE Fail
               [] e.k \in {"d", "w", "any", "rest"} ->
                    LET Ks == IF e.k = "rest"
                              THEN {0} \cup { k \in 1..(n - j + 1) : s[j] = 47 /\ \A t \in j..(j + k - 1) : IsAny(s[t]) }
                              ELSE { k \in (IF e.k = "any" THEN 0 ELSE 1)..(n - j + 1) : \A t \in j..(j + k - 1) : Cls(e.k, s[t]) }
-                       Good == { k \in Ks : BT(p, i + 1, s, j + k).ok }
+                       Good == { k \in Ks : BT(p, i + 1, s, j + k, cap).ok }
                    IN IF Good = {} THEN Fail
                       ELSE LET k == SetMax(Good)                                   \* greedy
-                           IN [ok |-> TRUE, g |-> <<SubSeq(s, j, j + k - 1)>> \o BT(p, i + 1, s, j + k).g]
+                           IN [ok |-> TRUE, g |-> <<SubSeq(s, j, j + k - 1)>> \o BT(p, i + 1, s, j + k, cap).g]
               [] e.k = "alt" ->
-                   LET Good == { q \in DOMAIN e.o : OccAt(s, e.o[q], j) /\ BT(p, i + 1, s, j + Len(e.o[q])).ok }
+                   LET Good == { q \in DOMAIN e.o : OccAt(s, e.o[q], j) /\ BT(p, i + 1, s, j + Len(e.o[q]), cap).ok }
                    IN IF Good = {} THEN Fail
                       ELSE LET q == CHOOSE x \in Good : \A y \in Good : x <= y     \* ordered alternation
-                           IN [ok |-> TRUE, g |-> <<e.o[q]>> \o BT(p, i + 1, s, j + Len(e.o[q])).g]
+                           IN [ok |-> TRUE, g |-> <<e.o[q]>> \o BT(p, i + 1, s, j + Len(e.o[q]), cap).g]
               [] e.k = "os" ->
-                   IF j <= n /\ s[j] = 47 /\ BT(p, i + 1, s, j + 1).ok THEN BT(p, i + 1, s, j + 1) ELSE BT(p, i + 1, s, j)
+                   IF j <= n /\ s[j] = 47 /\ BT(p, i + 1, s, j + 1, cap).ok THEN BT(p, i + 1, s, j + 1, cap) ELSE BT(p, i + 1, s, j, cap)
 
 \* regex_match(path, m, expr): anchored at 1; the seeded fault "search" tries every start and drops "\z"
 MechMatch(p, s) ==
     IF Mut = "search"
-    THEN LET Good == { a \in 1..(Len(s) + 1) : BT(p, 1, s, a).ok }
-         IN IF Good = {} THEN Fail ELSE BT(p, 1, s, CHOOSE a \in Good : \A b \in Good : a <= b)
-    ELSE BT(p, 1, s, 1)
+    THEN LET Good == { a \in 1..(Len(s) + 1) : BT(p, 1, s, a, TRUE).ok }
+         IN IF Good = {} THEN Fail ELSE BT(p, 1, s, CHOOSE a \in Good : \A b \in Good : a <= b, TRUE)
+    ELSE BT(p, 1, s, 1, TRUE)
+MatchBool(p, s) == BT(p, 1, s, 1, FALSE).ok            \* capture-less regex_match
 
-Upper(m) == IF m = "get" THEN "GET" ELSE m
+Upper(m) == [i \in 1..Len(m) |-> IF m[i] >= 97 /\ m[i] <= 122 THEN m[i] - 32 ELSE m[i]]
 MechMethod(o) ==
     \/ o.t = "m" \/ o.meth.k = "none"
-    \/ IF Mut = "icase" THEN Upper(meth) \in o.meth.s ELSE meth \in o.meth.s
+    \/ LET mm == IF Mut = "icase" THEN Upper(meth) ELSE meth
+       IN IF o.meth.re THEN MatchBool(<<Alt(o.meth.alts)>>, mm) ELSE mm \in o.meth.s
 
 \* ------------------------------------------------------------ dispatch machine
 NoHit == [id |-> 0, args |-> <<>>]
@@ -195,7 +206,7 @@ KeyForms(dn, app) ==
 \* (URLs of mounted children must start with "/": pattern 6 only at the root)
 InitMap ==
     /\ mode = "map"
-    /\ meth = "GET" /\ path = <<>> /\ depth = 0 /\ opts = <<>> /\ idx = 0 /\ out = "done" /\ hit = NoHit /\ taken = NoTaken
+    /\ meth = GETb /\ path = <<>> /\ depth = 0 /\ opts = <<>> /\ idx = 0 /\ out = "done" /\ hit = NoHit /\ taken = NoTaken
     /\ \E dn \in 1..3 : \E pi \in (IF dn = 1 THEN 1..Len(HPats) ELSE 1..5) : \E rv \in BOOLEAN : \E sh \in Shadows : \E app \in 1..dn :
          LET tgt == HPats[pi]
              sel == IF rv THEN Rev(NGroups(tgt)) ELSE Ident(NGroups(tgt))
@@ -240,8 +251,43 @@ MapThenRoute ==
            /\ (Intended(c.cfg, 1, u.url, want) = "reached" =>
                  Route(c.cfg, 1, "GET", u.url) = [hit |-> TRUE, app |-> c.dn, id |-> 7, args |-> want])
 
+\* ------------------------------------------------------------ mount points (applications pool)
+\* mount_point::match: host, the non-selected part and a selected part with group 0 go through the
+\* capture-less regex_match; a selected part with a group through the one with captures
+Nil == [nil |-> TRUE]
+P(els) == [els |-> els]
+hA == <<97, 46, 111>>  hAnl == <<97, 46, 111, 10>>  hB == <<98>>        \* "a.o"  "a.o\n"  "b"
+PoolMps ==
+    { [sel |-> sl, host |-> h, script |-> sc, path |-> pa, grp |-> g] :
+        sl \in {"path", "script"}, h \in {Nil, P(<<W, L(<<46, 111>>)>>)},
+        sc \in {Nil, P(<<L(sa)>>), P(<<L(ss), W>>)}, pa \in {Nil, P(<<L(sa), R>>), P(<<L(ss), W>>)}, g \in {0, 1} }
+PoolStrs == {<<>>, sa, sa \o <<10>>, sa \o s1, sab, sa \o s1 \o <<10>>, sa \o <<13, 10>>}
+MechMp(mp, h, sc, pa) ==
+    LET selS == IF mp.sel = "path" THEN pa ELSE sc
+        selP == IF mp.sel = "path" THEN mp.path ELSE mp.script
+        othS == IF mp.sel = "path" THEN sc ELSE pa
+        othP == IF mp.sel = "path" THEN mp.script ELSE mp.path
+    IN IF ~Unset(mp.host) /\ ~MatchBool(mp.host.els, h) THEN [ok |-> FALSE, sel |-> <<>>]
+       ELSE IF ~Unset(othP) /\ ~MatchBool(othP.els, othS) THEN [ok |-> FALSE, sel |-> <<>>]
+       ELSE IF Unset(selP) THEN [ok |-> TRUE, sel |-> selS]
+       ELSE IF mp.grp = 0 THEN [ok |-> MatchBool(selP.els, selS), sel |-> selS]
+       ELSE LET r == MechMatch(selP.els, selS) IN [ok |-> r.ok, sel |-> IF r.ok THEN r.g[mp.grp] ELSE <<>>]
+
+InitPool ==
+    /\ mode = "pool"
+    /\ meth = GETb /\ path = <<>> /\ depth = 0 /\ opts = <<>> /\ idx = 0 /\ out = "done" /\ hit = NoHit /\ taken = NoTaken
+    /\ \E mp \in PoolMps : \E h \in {hA, hAnl, hB} : \E sc \in PoolStrs : \E pa \in PoolStrs :
+          (mp.grp = 0 \/ ~Unset(IF mp.sel = "path" THEN mp.path ELSE mp.script)) /\ mcase = [mp |-> mp, h |-> h, s |-> sc, p |-> pa]
+
+PoolWhole ==
+    mode = "pool" =>
+        LET c == mcase
+            r == MechMp(c.mp, c.h, c.s, c.p)
+        IN /\ r.ok <=> MpMatches(c.mp, c.h, c.s, c.p)
+           /\ r.ok => r.sel = MpSelected(c.mp, c.s, c.p)
+
 \* ------------------------------------------------------------ specification and properties
-Init == (InitRoute /\ mcase = [cfg |-> <<>>]) \/ InitMap
+Init == (InitRoute /\ mcase = [cfg |-> <<>>]) \/ InitMap \/ InitPool
 Next == Try /\ UNCHANGED mcase
 Spec == Init /\ [][Next]_allvars
 
@@ -254,14 +300,17 @@ FirstMatch ==
     /\ (mode = "route" /\ out = "nf") => FirstOK(opts, meth, path) = 0
 
 NoPrefix ==
-    (mode = "route" /\ taken.has) =>
-        LET o == taken.opts[taken.i]
-        IN Matches(o.pat, taken.path) /\ ~PrefixOnly(o.pat, taken.path) /\ ~SubstrOnly(o.pat, taken.path)
+    /\ (mode = "route" /\ taken.has) =>
+          LET o == taken.opts[taken.i]
+          IN /\ Matches(o.pat, taken.path) /\ ~PrefixOnly(o.pat, taken.path) /\ ~SubstrOnly(o.pat, taken.path)
+             /\ (o.t = "h" => MethodOK(o.meth, meth))                 \* the method, too, is matched as a whole
+    /\ (mode = "pool" /\ MechMp(mcase.mp, mcase.h, mcase.s, mcase.p).ok) =>
+          MpMatches(mcase.mp, mcase.h, mcase.s, mcase.p)              \* host / script name / path info matched entirely
 
 MatcherAgrees ==        \* evaluated once per level (when the level is entered)
     (mode = "route" /\ out = "run" /\ idx = First(opts)) =>
         \A i \in 1..Len(opts) :
-            LET r == BT(opts[i].pat, 1, path, 1)
+            LET r == BT(opts[i].pat, 1, path, 1, TRUE)
             IN /\ r.ok <=> Matches(opts[i].pat, path)
                /\ ~Ambiguous(opts[i].pat, path)
                /\ r.ok => r.g = Groups(opts[i].pat, path)
